@@ -54,6 +54,7 @@ const (
 	evUpd1     = "recv-update-r1"
 	evUpd2     = "recv-update-r2"
 	evNotif    = "recv-notification"
+	evNotif1   = "recv-notification-code1" // error code 1: the value the FSM's NOTIFICATION handlers single out
 	evGarbage  = "recv-malformed"
 	evWFail    = "conn-write-fails" // the next writes on the current connection fail
 	evStop     = "manual-stop"
@@ -62,7 +63,7 @@ const (
 	evBUpd     = "other-session-announces"
 )
 
-var zvSessAlphabet = []string{evT15, evT1, evT4, evOpen, evOpenBad, evKA, evUpd1, evUpd2, evNotif, evGarbage, evWFail, evStop, evDispose, evDialFail, evBUpd}
+var zvSessAlphabet = []string{evT15, evT1, evT4, evOpen, evOpenBad, evKA, evUpd1, evUpd2, evNotif, evNotif1, evGarbage, evWFail, evStop, evDispose, evDialFail, evBUpd}
 
 // zvObs is what is observed after an event (everything at a quiescent point).
 type zvObs struct {
@@ -216,7 +217,7 @@ func (s *zvSess) enabled() []string {
 	connOpen := s.cA != nil && !s.cA.isClosed()
 	for _, e := range zvSessAlphabet {
 		switch e {
-		case evOpen, evOpenBad, evKA, evUpd1, evUpd2, evNotif, evGarbage:
+		case evOpen, evOpenBad, evKA, evUpd1, evUpd2, evNotif, evNotif1, evGarbage:
 			if !connOpen {
 				continue
 			}
@@ -267,6 +268,8 @@ func (s *zvSess) apply(e string) {
 		s.cA.deliver(s.updateFor(zvR2))
 	case evNotif:
 		s.cA.deliver(zvwNotification(6, 4))
+	case evNotif1:
+		s.cA.deliver(zvwNotification(1, 2))
 	case evGarbage:
 		b := zvwKeepalive()
 		b[3] = 0 // corrupt the marker
